@@ -47,7 +47,12 @@ func main() {
 			fmt.Println("CHECKER-FAILURE", err)
 			os.Exit(2)
 		}
-		b, _ := json.MarshalIndent(map[string]any{"inventory": inv, "sources": srcs}, "", " ")
+		files, err := norm.Files(*repo)
+		if err != nil {
+			fmt.Println("CHECKER-FAILURE", err)
+			os.Exit(2)
+		}
+		b, _ := json.MarshalIndent(map[string]any{"inventory": inv, "sources": srcs, "files": files}, "", " ")
 		fmt.Println(string(b))
 		return
 	}
